@@ -213,7 +213,7 @@ def run_check(cid, tier, cfg):
             inconclusive.append('unit %s shard %d hit the process time limit (in flight: %s)' % (u['name'], k, crash and crash['desc']))
             continue
         if data is None:
-            if crash and crash['idx'] >= 0:
+            if crash and (crash['idx'] >= 0 or (crash['desc'] and not crash['desc'].startswith('(after'))):
                 viols.append(dict(unit=u['name'], shard='%d/%d' % (k, u['shards']), idx=crash['idx'], key='crash:' + crash['what'], desc=crash['desc'],
                                   msg='process died (%s) while executing this case; stderr tail: %s' % (crash['what'], r['stderr'][-1500:])))
                 continue
@@ -357,7 +357,7 @@ def replay(path, cfgs):
     outs = []
     for rep in range(2):
         out = os.path.join(odir, 'replay.%d.json' % rep)
-        cmd = [binp, '--tier', tier, '--case', str(rp['idx']), '--shard', rp.get('shard', '0/1'), '--out', out, '--variant', u['name']] + u['args']
+        cmd = [binp, '--tier', tier, '--case', str(rp['idx']), '--shard', rp.get('shard', '0/1'), '--out', out, '--variant', u['name'], '--desc', rp['desc']] + u['args']
         env = dict(SAN_ENV) if u['mode'] == 'san' else {}
         env.update(u['env'])
         r = run_proc(cmd, env, 600, out)
